@@ -33,9 +33,17 @@ fn values(rng: &mut Rng, n: usize, fam: usize) -> Vec<f32> {
             1 => *rng.pick(&SPECIAL),
             2 => (rng.normal() * 1e19) as f32 * (rng.normal() * 1e19) as f32 * 0.5,
             3 => f32::from_bits(rng.range(0, 0x00ffffff) as u32),
+            // small dyadic palette: equal elements, exact ones, sums that cancel or hit 1
+            5 => *rng.pick(&crate::monitors::c02::PALETTE),
+            // sorted data (ascending / descending runs)
+            6 => 0.0,
             _ => (rng.normal() as f32) * 10f32.powi(rng.range(0, 12) as i32 - 6),
         })
         .map(|v| if v.is_finite() { v } else { f32::MAX })
+        .collect::<Vec<f32>>()
+        .into_iter()
+        .enumerate()
+        .map(|(i, v)| if fam == 6 { (if n % 2 == 0 { i as f32 } else { (n - i) as f32 }) * 0.75 - 2.0 } else { v })
         .collect()
 }
 
@@ -75,7 +83,7 @@ fn binary_case(rng: &mut Rng, idx: u64, out: &mut Out) {
     let ops = ["add", "sub", "mul", "hadamard"];
     let op = ops[(idx % 4) as usize];
     let rank = 1 + ((idx / 4) % 4) as usize;
-    let fam = ((idx / 16) % 5) as usize;
+    let fam = ((idx / 16) % 7) as usize;
     let dims = dims_for(rng, rank, 5);
     let n = product(&dims);
     let a = values(rng, n, fam);
@@ -199,7 +207,7 @@ fn mismatch_case(rng: &mut Rng, idx: u64, out: &mut Out) {
 
 fn scalar_case(rng: &mut Rng, idx: u64, out: &mut Out) {
     let rank = 1 + (idx % 4) as usize;
-    let fam = ((idx / 4) % 5) as usize;
+    let fam = ((idx / 4) % 7) as usize;
     let dims = dims_for(rng, rank, 5);
     let n = product(&dims);
     let a = values(rng, n, fam);
@@ -257,7 +265,7 @@ fn mean_case(rng: &mut Rng, idx: u64, out: &mut Out) {
     let k = 1 + ((idx / 4) % 6) as usize;
     let dims = dims_for(rng, rank, 4);
     let n = product(&dims);
-    let fam = if rng.chance(0.3) { 4 } else { 0 };
+    let fam = *rng.pick(&[0usize, 0, 4, 5, 6]);
     let a = values(rng, n, fam);
     let others: Vec<Vec<f32>> = (0..k).map(|_| values(rng, n, fam)).collect();
     out.key = format!("mean rank{} k{} {:?}", rank, k, dims);
@@ -397,7 +405,7 @@ fn linalg_case(rng: &mut Rng, idx: u64, out: &mut Out) {
         }
         out.count("linalg_cases_with_a_long_dimension", 1);
     }
-    let fam = if idx % 3 == 0 { 4 } else { 0 };
+    let fam = [0usize, 4, 5, 0, 6, 5][(idx % 6) as usize];
     let m = values(rng, r * c, fam);
     let x = values(rng, c, fam);
     let y = values(rng, r, fam);
@@ -483,7 +491,7 @@ impl Monitor for C15 {
         vec![("binary", 8000 * k), ("mismatch", 4000 * k), ("scalar", 3000 * k), ("mean", 3000 * k), ("nested", 1500 * k), ("linalg", 2000 * k)]
     }
     fn rule(&self) -> &'static str {
-        "binary: (op in add/sub/mul/hadamard) x (rank 1..4) x (content family: random, special values incl. +-0, denormals, +-MAX, overflowing products, bit-pattern denormals, log-scaled) on random shapes with extents 1..5: result bit-equal to the IEEE f32 operation performed by the harness (any association for the scaled Hadamard product), bit-identical to the same operation on the numbers laid out as a vector (rank-generic), shape unchanged. mismatch: same ops + mean on operand pairs of different extent or rank (incl. equal element count in another rank): must panic and leave the left operand untouched. scalar: division by scalars incl. 0, tiny, huge + clamp. mean: k = 1..6 others. nested: Nested / NestedOptional add, Nested scalar division, nested length mismatch and member-shape mismatch. linalg: outer product (bit-exact), matrix-vector product (f64 with dot-product bound), transpose, hadamard3d. Distinct = distinct (op, rank, shape, family) descriptors."
+        "binary: (op in add/sub/mul/hadamard) x (rank 1..4) x (content family: random, special values incl. +-0, denormals, +-MAX, overflowing products, bit-pattern denormals, log-scaled, a dyadic palette {-2,-1,-0.5,0,0.5,1,2}, sorted ramps) on random shapes with extents 1..5: result bit-equal to the IEEE f32 operation performed by the harness (any association for the scaled Hadamard product), bit-identical to the same operation on the numbers laid out as a vector (rank-generic), shape unchanged. mismatch: same ops + mean on operand pairs of different extent or rank (incl. equal element count in another rank): must panic and leave the left operand untouched. scalar: division by scalars incl. 0, tiny, huge + clamp. mean: k = 1..6 others. nested: Nested / NestedOptional add, Nested scalar division, nested length mismatch and member-shape mismatch. linalg: outer product (bit-exact), matrix-vector product (f64 with dot-product bound), transpose, hadamard3d. Distinct = distinct (op, rank, shape, family) descriptors."
     }
     fn assumptions(&self) -> Vec<&'static str> {
         vec!["hadamard3d is documented as not validating lengths, so it is only driven with equal shapes", "NaN results (inf-inf, 0*inf) are matched as NaN"]
